@@ -20,8 +20,10 @@ def run(ck):
     # histories of ANY length: with freed block ids recycled the state space of the repaired model is finite and TLC explores
     # all of it (2 slots, strided + morton, construct / write / copy and move construction and assignment incl. self /
     # conversion / destruction)
-    ck.tlc("Lifecycle", "MC_Lifecycle.unboundedq.cfg" if ck.quick else "MC_Lifecycle.unbounded.cfg", timeout=1800)
-    ck.bound("unbounded_history_configuration", "2 slots, extents {2x1}" if ck.quick else "2 slots, extents {2x1, 1x3}")
+    ck.tlc("Lifecycle", "MC_Lifecycle.unboundedq.cfg", timeout=1800)          # all operations, extents {2x1}
+    if not ck.quick:
+        ck.tlc("Lifecycle", "MC_Lifecycle.unbounded.cfg", timeout=1800)       # core operations, extents {2x1, 1x3}
+    ck.bound("unbounded_history_configuration", "2 slots; all operations on extents {2x1}" + ("" if ck.quick else "; core operations on extents {2x1, 1x3}"))
     if not ck.quick:
         ck.tlc("Lifecycle", "MC_Lifecycle.thorough2.cfg", timeout=1800)
         ck.tlc("Lifecycle", "MC_Lifecycle.thorough3.cfg", timeout=1800)
